@@ -20,6 +20,7 @@ Implementation: Multi-location config search, recursive dict merging, comprehens
 
 import json
 import logging
+import math
 from pathlib import Path
 from typing import Any
 
@@ -266,7 +267,7 @@ def _validate_max_retries(config: dict[str, Any], errors: list[str]) -> None:
         max_retries = config["max_retries"]
     except KeyError:
         return  # Optional key not present
-    if not isinstance(max_retries, int) or max_retries < 0:
+    if isinstance(max_retries, bool) or not isinstance(max_retries, int) or max_retries < 0:
         errors.append("max_retries must be a non-negative integer")
 
 
@@ -276,7 +277,8 @@ def _validate_timeout(config: dict[str, Any], errors: list[str]) -> None:
         timeout = config["timeout"]
     except KeyError:
         return  # Optional key not present
-    if not isinstance(timeout, (int, float)) or timeout <= 0:
+    is_number = isinstance(timeout, (int, float)) and not isinstance(timeout, bool)
+    if not is_number or not math.isfinite(timeout) or timeout <= 0:
         errors.append("timeout must be a positive number")
 
 
